@@ -8,11 +8,18 @@ CONSTANT Which
 
 \* byte order: "" < "a" < "b" < "é" (0xC3 0xA9)
 MC_KeyOrderTrees == <<"", "a", "b", "é">>
+\* the "views" run adds the well-known keys of the Extent / SpanCtxt views
+MC_KeyOrderViews == <<"", "a", "b", "span_id", "span_parent", "trace_id", "ts", "ts_start", "é">>
 KS == 1..4
 K_ == 1      \* ""
 Ka == 2
 Kb == 3
-Ke == 4      \* "é"
+Ke == IF Which = "views" THEN 9 ELSE 4      \* "é"
+KSpanId == 4
+KSpanParent == 5
+KTraceId == 6
+KTs == 7
+KTsStart == 8
 
 KVs(ks, b) == [i \in 1..Len(ks) |-> [k |-> ks[i], v |-> b + i]]
 
@@ -32,7 +39,7 @@ LeavesFull(b, L) ==
     {[op |-> "empty"]}
     \cup {[op |-> "pair", kvs |-> KVs(<<k>>, b)] : k \in KS}
     \cup {[op |-> o, kvs |-> KVs(ks, b)] : o \in {"arr", "slice"}, ks \in SeqsUpTo(KS, L)}
-    \cup {[op |-> o, kvs |-> KVs(DescSeq(X), b)] : o \in {"btree", "hash"}, X \in SubsetsUpTo(KS, L)}
+    \cup {[op |-> o, kvs |-> KVs(DescSeq(X), b)] : o \in {"btree", "hash", "ctxt"}, X \in SubsetsUpTo(KS, L)}
 
 \* a small pool for the deeper trees: duplicates inside a leaf, across leaves, maps,
 \* the empty and the non-ASCII key
@@ -44,7 +51,27 @@ LeavesSmall(b) ==
      [op |-> "arr", kvs |-> KVs(<<Kb, Ka>>, b)],
      [op |-> "slice", kvs |-> KVs(<<Ke, Kb>>, b)],
      [op |-> "btree", kvs |-> KVs(<<Kb, Ka>>, b)],
-     [op |-> "hash", kvs |-> KVs(<<Ke, Ka>>, b)]}
+     [op |-> "hash", kvs |-> KVs(<<Ke, Ka>>, b)],
+     [op |-> "ctxt", kvs |-> KVs(<<Kb, Ka>>, b)]}
+
+\* the Extent and SpanCtxt views (fixed values: ts_start 3, ts 5, trace 21, span 22, parent 23),
+\* in the order the code yields them
+ViewLeaves ==
+    {[op |-> "extent", kvs |-> <<[k |-> KTs, v |-> 5]>>],
+     [op |-> "extent", kvs |-> <<[k |-> KTsStart, v |-> 3], [k |-> KTs, v |-> 5]>>]}
+    \cup {[op |-> "spanctxt",
+           kvs |-> (IF tr THEN <<[k |-> KTraceId, v |-> 21]>> ELSE <<>>)
+                   \o (IF sp THEN <<[k |-> KSpanId, v |-> 22]>> ELSE <<>>)
+                   \o (IF pa THEN <<[k |-> KSpanParent, v |-> 23]>> ELSE <<>>)] :
+            tr \in BOOLEAN, sp \in BOOLEAN, pa \in BOOLEAN}
+
+\* leaves that repeat the views' keys with other values
+ViewRights(b) ==
+    LeavesSmall(b) \cup ViewLeaves \cup
+    {[op |-> "pair", kvs |-> KVs(<<KTs>>, b)],
+     [op |-> "arr", kvs |-> KVs(<<KTsStart, KTs, KTs>>, b)],
+     [op |-> "ctxt", kvs |-> KVs(<<KTraceId, KSpanId>>, b)],
+     [op |-> "slice", kvs |-> KVs(<<KSpanParent, KTraceId>>, b)]}
 
 LeavesMid(b) ==
     LeavesSmall(b) \cup
@@ -67,19 +94,11 @@ Width(d) == IF d = 0 THEN 3 ELSE 2 * Width(d - 1)
 RECURSIVE T(_, _, _)
 T(mode, d, b) ==
     IF d = 0 THEN Pool(mode, b)
-    \* TLCEval: turn the lazily represented unions into explicit sets (enumerating a
-    \* union of comprehensions is quadratic otherwise)
-    ELSE LET sub == TLCEval(T(mode, d - 1, b))
-             subR == TLCEval(T(mode, d - 1, b + Width(d - 1)))
-         IN TLCEval(sub \cup {[op |-> "none"]}
+    ELSE LET sub == T(mode, d - 1, b)
+             subR == T(mode, d - 1, b + Width(d - 1))
+         IN sub \cup {[op |-> "none"]}
                 \cup {[op |-> o, t |-> x] : o \in Unary, x \in sub}
-                \cup {[op |-> "and", l |-> x, r |-> y] : x \in sub, y \in subR})
-
-Trees(w) ==
-    CASE w = "trees_tiny" -> T("small", 1, 0)
-      [] w = "trees_quick" -> T("full2", 1, 0) \cup T("small", 2, 0)
-      [] w = "trees_thorough" -> T("full3", 1, 0) \cup T("mid", 2, 0)
-      [] w = "grow" -> {}
+                \cup {[op |-> "and", l |-> x, r |-> y] : x \in sub, y \in subR}
 
 MC_GrowLeaves(b) == LeavesMid(b)
 
@@ -150,11 +169,28 @@ SitesThorough(x) ==
     \cup Sites({AscSeq(S) : S \in Sets3} \cup {<<"c", "a", "b">>, <<"type", "b", "a">>},
                FeatsAll \ {"lo_optsome", "hi_cfgon", "cfgon", "optsome"}, 3)
 
-MC_TreeSet ==
-    TLCEval(CASE Which = "sites_quick" -> SitesQuick(0)
-              [] Which = "sites_thorough" -> SitesThorough(0)
-              [] OTHER -> Trees(Which))
+\* modes: <<pool, depth of the seeds>>; the explored trees of a mode have one more level
+ModesFor(w) ==
+    CASE w = "trees_tiny" -> <<<<"small", 0>>>>
+      [] w = "trees_quick" -> <<<<"full2", 0>>, <<"small", 1>>>>
+      [] w = "trees_thorough" -> <<<<"full3", 0>>, <<"mid", 1>>>>
+      [] OTHER -> <<>>
+
+IsSites == Which \in {"sites_quick", "sites_thorough"}
+
+MC_NModes == IF IsSites \/ Which = "views" THEN 1 ELSE Len(ModesFor(Which))
+MC_Seeds(m) ==
+    IF Which = "views" THEN ViewLeaves \cup {[op |-> o, t |-> x] : o \in {"dedup", "erased"}, x \in ViewLeaves}
+                            \cup {[op |-> "and", l |-> x, r |-> y] : x \in ViewRights(30), y \in ViewLeaves}
+    ELSE IF IsSites THEN (IF Which = "sites_quick" THEN SitesQuick(0) ELSE SitesThorough(0))
+    ELSE T(ModesFor(Which)[m][1], ModesFor(Which)[m][2], 0) \cup {[op |-> "none"]}
+MC_Rights(m) ==
+    IF Which = "views" THEN ViewRights(40)
+    ELSE IF IsSites THEN {}
+    ELSE T(ModesFor(Which)[m][1], ModesFor(Which)[m][2], Width(ModesFor(Which)[m][2]))
+MC_Extend(m) == ~IsSites
 
 MC_KeyOrder ==
-    IF Which \in {"sites_quick", "sites_thorough"} THEN MC_KeyOrderSites ELSE MC_KeyOrderTrees
+    IF Which \in {"sites_quick", "sites_thorough"} THEN MC_KeyOrderSites
+    ELSE IF Which = "views" THEN MC_KeyOrderViews ELSE MC_KeyOrderTrees
 =============================================================================
